@@ -11,7 +11,7 @@ import numpy as np
 from framework import progress
 
 MODE = os.environ.get("NUCS_VERIF_MODE", "jit")
-HEIGHTS = [2, 3, 4, 8, 16, 127, 128, 129, 254, 255, 256, 257, 300, 512, 1024]
+HEIGHTS = [2, 3, 4, 8, 16, 127, 128, 129, 253, 254, 255, 256, 257, 300, 512, 1024]
 GUARD = 12
 SENT = np.int32(-1234567)
 
@@ -133,6 +133,8 @@ def run_stack(task):
                     if heur == "mid" and d % 2:
                         continue
                     if calg == "shaving" and h > 300:
+                        continue
+                    if task.get("only_calg") and calg != task["only_calg"]:
                         continue  # a shaving pass over > 300 variables per node is needlessly slow; bc covers these
                     progress.mark({"stack_case": [h, d, heur, calg]})
                     rec = stack_case(h, d, heur, calg)
